@@ -44,6 +44,16 @@ def scenarios(tier, seed):
         "prop-color": {"t": "prop", "p": "color", "v": "#00FF00"},
         "prop-comment": {"t": "prop", "p": "comment", "v": "a comment"},
     }
+    # the same operations arriving as HTTP requests (the Content-Type spelled in several ways)
+    http_ops = {
+        "http-create": {"t": "http", "method": "PUT", "n": "b.ics", "ct": "text/calendar", "data": b3, "as": "put"},
+        "http-replace": {"t": "http", "method": "PUT", "n": "a.ics", "ct": "text/calendar; charset=utf-8", "data": b2, "as": "put"},
+        "http-replace-ct": {"t": "http", "method": "PUT", "n": "a.ics", "ct": "TEXT/CALENDAR; charset=utf-8", "data": b2, "as": "put"},
+        "http-replace-ct2": {"t": "http", "method": "PUT", "n": "a.ics", "ct": "text/calendar ;charset=utf-8", "data": b2, "as": "put"},
+        "http-replace-noct": {"t": "http", "method": "PUT", "n": "a.ics", "ct": "", "data": b2, "as": "put"},
+        "http-delete": {"t": "http", "method": "DELETE", "n": "a.ics", "as": "del"},
+        "http-proppatch": {"t": "http", "method": "PROPPATCH", "p": "displayname", "v": "Set over HTTP", "as": "prop"},
+    }
     out = []
     prior_names = ["one"] if tier == "quick" else list(priors)
     for kind in ("tree", "bare", "vdir"):
@@ -54,6 +64,9 @@ def scenarios(tier, seed):
                 out.append({"kind": kind, "prior": pn, "prep": priors[pn], "opname": on, "op": op,
                             "cfgbackend": False})
         if kind != "vdir":
+            for on, op in http_ops.items():
+                out.append({"kind": kind, "prior": "one", "prep": priors["one"], "opname": on, "op": op,
+                            "cfgbackend": False})
             for on in ("prop-displayname", "prop-description", "prop-color", "prop-comment", "replace"):
                 out.append({"kind": kind, "prior": "one", "prep": priors["one"], "opname": on,
                             "op": ops[on], "cfgbackend": True})
@@ -76,9 +89,9 @@ def _work(sc):
         C = Interner()
         r = cd.run_op_with_images(sc["kind"], sc["prep"], sc["op"], C, cfgbackend=sc["cfgbackend"])
         op = sc["op"]
-        rec = {"kind": sc["kind"] + ("-gitcfg" if sc["cfgbackend"] else ""), "t": op["t"],
+        rec = {"kind": sc["kind"] + ("-gitcfg" if sc["cfgbackend"] else ""), "t": op.get("as", op["t"]),
                "n": op.get("n") or op.get("p"), "prior": sc["prior"], "opname": sc["opname"],
-               "expect": C(("prop", op["v"])) if op["t"] == "prop" else 0,
+               "expect": C(("prop", op["v"])) if op.get("as", op["t"]) == "prop" else 0,
                "pre": r["pre"], "final": r["final"], "oper_error": r["oper_error"],
                "images": [{"k": im["k"], "gate": im["gate"], "torn": im["torn"], "obs": im["obs"]}
                           for im in r["images"]],
